@@ -182,6 +182,22 @@ fn run(sh: &mut Shard) {
             sh.running()
         });
     }
+    // nesting templates: every ordered pair / triple of constructs
+    for depth in 1..=(if tier == Tier::Quick { 2 } else { 3 }) {
+        crate::compose::for_each(depth, &mut |_, prog| {
+            if !sh.mine() {
+                return sh.running();
+            }
+            let text = printer::program(prog);
+            sh.begin(&|| text.clone());
+            sh.count("family:compose");
+            let ast: BlockStmt = prog.to_vec();
+            if check_ast(sh, &ops, "compose", &text, &ast).compiled {
+                sh.nontrivial(&text);
+            }
+            sh.running()
+        });
+    }
     // directed: functions nested in functions
     for prog in slices::nested_function_programs() {
         if !sh.mine() {
